@@ -4,8 +4,16 @@ Correspondence: Lean `VarPipe.render` vs the real tag for str / int / None / obj
 methods / undefined names, every subset and written order of modifiers, formats, sizes, etc.
 Oracle (independent of the model, written from the documentation): order independence,
 missing/null, truncation, case methods, thousands grouping, url round trip, sql_quote.
+Reference pipeline (pipe_oracle): the whole documented pipeline written in plain Python, evaluated on
+every conversion code of the %(name ...)code syntax, %-formats / methods / special formats of fmt=,
+numeric value types, texts that must be taken verbatim (case, blanks), names that differ in case only,
+and on histories (one compiled template rendered with several values in a row).
 """
+import decimal
+import fractions
+import html
 import json
+import math
 import re
 import urllib.parse
 
@@ -239,14 +247,476 @@ def doc_oracles(res, r, tier):
     return fails
 
 
+# --------------------------------------------------------------------------- reference pipeline
+#
+# The documented pipeline, written from the property text and the module documentation in plain Python.  Nothing
+# below looks at the implementation: the expected text of a case is computed from the value, the options as they
+# are WRITTEN in the template and Python's own semantics ('%' formatting, str methods, urllib, html.escape).
+
+# the one fixed order of the value modifiers (table of the documentation at the pinned commit)
+MOD_ORDER = ['html_quote', 'url_quote', 'url_quote_plus', 'url_unquote', 'url_unquote_plus', 'newline_to_br',
+             'lower', 'upper', 'capitalize', 'spacify', 'thousands_commas', 'sql_quote']
+CONVERSIONS = 'diouxXeEfFgGcrsa'            # every conversion type of Python's % operator
+BAD_CONVERSIONS = 'SDCRqZ'                  # letters the tag syntax accepts that are no conversion type
+UNDEF = ['undef']
+
+
+class Outside(Exception):
+    """the case is outside the domain on which the reference is defined"""
+
+
+class PObj:
+    """object with a str() form, a truth value and methods whose names differ in case only"""
+
+    def __init__(self, s, truthy):
+        self._s = s
+        self._truthy = truthy
+
+    def __str__(self):
+        return self._s
+
+    def __repr__(self):
+        return 'PObj(%r)' % self._s
+
+    def __bool__(self):
+        return self._truthy
+
+    def DayOfWeek(self):
+        return 'Monday'
+
+    def dayofweek(self):
+        return 'lower-case-twin'
+
+    def Title(self):
+        return 'The ' + self._s
+
+    def AsInt(self):
+        return 48879
+
+    def asint(self):
+        return 7
+
+    def AsFloat(self):
+        return 12345.678
+
+    def hello(self):
+        return 'hello_big world'
+
+
+def mk(vd):
+    """value description (JSON-able) -> Python object"""
+    k = vd[0]
+    if k == 'int':
+        return int(vd[1])
+    if k == 'bool':
+        return bool(vd[1])
+    if k == 'float':
+        return float(vd[1])
+    if k == 'dec':
+        return decimal.Decimal(vd[1])
+    if k == 'frac':
+        return fractions.Fraction(vd[1])
+    if k == 'complex':
+        return complex(vd[1])
+    if k == 'str':
+        return vd[1]
+    if k == 'none':
+        return None
+    if k == 'json':
+        return json.loads(vd[1])
+    if k == 'tuple':
+        return tuple(json.loads(vd[1]))
+    if k == 'obj':
+        return PObj(vd[1], vd[2])
+    raise ValueError(k)
+
+
+INTS = [0, 1, -1, 7, 10, 42, 65, 255, 999, 1000, 3054, 48879, 1234567, -7654321, 10 ** 12, 2 ** 70]
+FLOATS = ['0.0', '-0.0', '0.5', '-0.25', '2.5', '3.14159', '12345.678', '1e-10', '1234567.0', '1e+20', '-1.5e-07',
+          '1e+16', '255.0', 'nan', 'inf', '-inf']
+DECS = ['0', '2.50', '1234567.891', '1E+3', '-0.00', '255']
+FRACS = ['0', '7/2', '255']
+COMPLEX = ['0j', '(1+2j)']
+CONTAINERS = [['json', '[]'], ['json', '{}'], ['tuple', '[]'], ['json', '[0]'], ['json', '[1, 2, 3]'],
+              ['json', '{"a": 1}'], ['tuple', '[1, 2]']]
+
+
+def gen_pvalue(r):
+    c = r.random()
+    if c < 0.22:
+        return ['int', r.choice(INTS)]
+    if c < 0.42:
+        return ['float', r.choice(FLOATS)]
+    if c < 0.47:
+        return ['dec', r.choice(DECS)]
+    if c < 0.49:
+        return ['frac', r.choice(FRACS)]
+    if c < 0.51:
+        return ['complex', r.choice(COMPLEX)]
+    if c < 0.54:
+        return ['bool', r.random() < 0.5]
+    if c < 0.76:
+        s = r.choice(WORDS)
+        if r.random() < 0.3:
+            s += r.choice(WORDS)
+        return ['str', s]
+    if c < 0.80:
+        return ['none']
+    if c < 0.86:
+        return r.choice(CONTAINERS)
+    if c < 0.94:
+        return ['obj', r.choice(WORDS), r.random() < 0.7]
+    return UNDEF
+
+
+def is_null(val):
+    """null value: None, or false but not 0"""
+    return val is None or (not val and val != 0)
+
+
+def finite_number(val):
+    if isinstance(val, (bool, int, fractions.Fraction)):
+        return True
+    if isinstance(val, float):
+        return math.isfinite(val)
+    if isinstance(val, decimal.Decimal):
+        return val.is_finite()
+    return False
+
+
+def ref_group(text):
+    """thousands_commas: groups the digits of the integer part; a text without digits has nothing to group"""
+    if not any(ch in '0123456789' for ch in text):
+        return text
+    g = grouped(text)
+    if g is None:
+        raise Outside('thousands_commas on a text that is not [sign]digits[.rest]')
+    return g
+
+
+def ref_sql(text):
+    return text.replace('\x00', '').replace('\x1a', '').replace('\r', '').replace("'", "''")
+
+
+def ref_br(text):
+    return text.replace('\r', '').replace('\n', '<br />\n')
+
+
+REF_MODS = {
+    'html_quote': lambda t: html.escape(t, True),
+    'url_quote': urllib.parse.quote,
+    'url_quote_plus': urllib.parse.quote_plus,
+    'url_unquote': urllib.parse.unquote,
+    'url_unquote_plus': urllib.parse.unquote_plus,
+    'newline_to_br': ref_br,
+    'lower': str.lower, 'upper': str.upper, 'capitalize': str.capitalize,
+    'spacify': lambda t: t.replace('_', ' '),
+    'thousands_commas': ref_group,
+    'sql_quote': ref_sql,
+}
+NUMERIC_SPECIAL = {'whole-dollars': '$%d', 'dollars-and-cents': '$%.2f', 'dollars-with-commas': '$%d',
+                   'dollars-and-cents-with-commas': '$%.2f'}
+TEXT_SPECIAL = {'html-quote': 'html_quote', 'url-quote': 'url_quote', 'url-quote-plus': 'url_quote_plus',
+                'url-unquote': 'url_unquote', 'url-unquote-plus': 'url_unquote_plus', 'multi-line': 'newline_to_br',
+                'sql-quote': 'sql_quote'}
+
+
+def ref_fmt(fmt, val):
+    """fmt=: a method of the value, a named special format or a %-format"""
+    if fmt and fmt.isidentifier() and hasattr(val, fmt):
+        m = getattr(val, fmt)
+        if not callable(m):
+            raise Outside('fmt names an attribute that is no method')
+        return m()
+    if fmt in NUMERIC_SPECIAL:
+        if not finite_number(val):
+            raise Outside('money format of a non-number')
+        try:
+            text = NUMERIC_SPECIAL[fmt] % val
+        except Exception:  # noqa
+            raise Outside('money format of a number Python cannot format')
+        return ref_group(text) if fmt.endswith('with-commas') else text
+    if fmt == 'collection-length':
+        return str(len(val))
+    if fmt == 'comma-numeric':
+        return ref_group(str(val))
+    if fmt in TEXT_SPECIAL:
+        if not isinstance(val, str):
+            raise Outside('text format of a non-text')
+        return REF_MODS[TEXT_SPECIAL[fmt]](val)
+    if fmt in SPECIAL or fmt in ('structured-text', 'restructured-text'):
+        raise Outside('special format without a reference')
+    if fmt == '':
+        return ''
+    if isinstance(val, (tuple, dict)):
+        raise Outside('%-format of a tuple / mapping: the operand is not one value')
+    return fmt % val
+
+
+def ref_pipeline(spec, vd, size=None):
+    """expected text of one dtml-var insertion; raises what Python raises; Outside = not defined here.
+    Returns (text, text before truncation)."""
+    if vd == UNDEF:
+        if spec.get('by_expr'):
+            raise Outside('an expression is not a name: missing= is about undefined names')
+        if spec.get('missing') is not None:
+            return spec['missing'], None
+        raise KeyError(spec['name'])
+    val = mk(vd)
+    if spec.get('null') is not None and is_null(val):
+        return spec['null'], None
+    if spec.get('fmt') is not None:
+        val = ref_fmt(spec['fmt'], val)
+    code = spec.get('cfmt', 's')
+    if isinstance(val, bytes):
+        raise Outside('bytes')
+    if code == 's':
+        text = val if isinstance(val, str) else str(val)
+    else:
+        text = ('%' + code) % (val,)
+    for m in MOD_ORDER:
+        if m in spec['written']:
+            text = REF_MODS[m](text)
+    if ('url_unquote' in spec['written'] and '%' in text) or \
+            ('url_unquote_plus' in spec['written'] and ('%' in text or '+' in text)):
+        raise Outside('known finding C15-double-unquote')
+    full = text
+    if size is None:
+        size = spec.get('size')
+    if size is not None:
+        size = int(size)
+        if len(text) > size:
+            text = text[:size]
+            blank = text.rfind(' ')
+            if blank > size / 2:
+                text = text[:blank + 1]
+            text += spec['etc'] if spec.get('etc') is not None else '...'
+    return text, full
+
+
+def ref_outcome(spec, vd):
+    try:
+        return ('out', ref_pipeline(spec, vd)[0])
+    except Outside:
+        return None
+    except Exception as e:  # noqa
+        return ('err', type(e).__name__)
+
+
+PCT_FORMATS = ['%s', 'x%sx', '%d', '%5d', '%05d', '%i', '%o', '%x', '%X', '%#x', '%#X', '%08X', '%e', '%E', '%.2E',
+               '%.2e', '%g', '%G', '%.3G', '%f', '%F', '%.2f', '%08.3f', '%+d', '%-8s|', '%r', '%a', '%c', '%s%%',
+               '%5.1f%%', 'Total: %s', 'UPPER %s lower', '%S', 'abc', '', '%.3s', '%10.4s']
+METHOD_NAMES = ['upper', 'lower', 'capitalize', 'title', 'swapcase', 'strip', 'hello', 'DayOfWeek', 'dayofweek',
+                'Title', 'AsInt', 'asint', 'AsFloat', 'bit_length', 'hex', 'is_integer', 'keys', 'NoSuchMethod',
+                'nosuch-format']
+VERBATIM = ['', 'NULL', 'n/a', 'N/A', 'Not Available', ' ', ' padded ', 'ÉTC…', 'MiXeD', '0', '%s', 'a=b']
+ETCS = ['...', '', '>>', ' etc', '…', ' More', 'ETC', '!!']
+NAME_PAIRS = [('x', 'X'), ('X', 'x'), ('Total_Cost', 'total_cost'), ('total_cost', 'TOTAL_COST'), ('x', 'X')]
+
+
+def gen_code(r):
+    letter = r.choice(CONVERSIONS) if r.random() < 0.93 else r.choice(BAD_CONVERSIONS)
+    width = r.choice(['', '', '', '0', '1', '3', '5', '08', '012', '12'])
+    prec = r.choice(['', '', '', '.', '.0', '.2', '.3', '.10'])
+    return width + prec + letter
+
+
+def gen_pspec(r, syntax):
+    w = [m for m in MOD_ORDER if r.random() < 0.13]
+    r.shuffle(w)
+    name, decoy = r.choice(NAME_PAIRS)
+    sp = {'written': w, 'name': name, 'decoy': decoy, 'by_expr': r.random() < 0.15}
+    c = r.random()
+    if c < 0.25:
+        sp['fmt'] = r.choice(PCT_FORMATS)
+    elif c < 0.40:
+        sp['fmt'] = r.choice(METHOD_NAMES)
+    elif c < 0.50:
+        sp['fmt'] = r.choice(SPECIAL)
+    if r.random() < 0.25:
+        sp['null'] = r.choice(VERBATIM)
+    if r.random() < 0.2:
+        sp['missing'] = r.choice(VERBATIM)
+    if syntax == 'epfs' and r.random() < 0.75:
+        sp['cfmt'] = gen_code(r)
+    return sp
+
+
+_UNQUOTED = re.compile(r'^[^\x00- ="()<>-]+$')
+
+
+def pipe_source(sp, syntax, r):
+    """the tag as text: options in a random written order, quoted or bare values, assorted white space"""
+    attrs = list(sp['written'])
+    for k in ('fmt', 'size', 'etc', 'null', 'missing'):
+        v = sp.get(k)
+        if v is not None:
+            if _UNQUOTED.match(str(v)) and r.random() < 0.3:
+                attrs.append('%s=%s' % (k, v))
+            else:
+                attrs.append('%s="%s"' % (k, v))
+    r.shuffle(attrs)
+    if sp['by_expr']:
+        head = 'expr="%s"' % sp['name']
+        if syntax == 'epfs':
+            head = 'var ' + head
+    else:
+        head = sp['name']
+        if syntax == 'epfs' and r.random() < 0.2:
+            head = 'var ' + head
+    body = head
+    for a in attrs:
+        body += r.choice([' ', ' ', ' ', '  ', '\t', '\n']) + a
+    if syntax == 'dtml':
+        tag = '<dtml-var %s>' % body
+    elif syntax == 'ssi':
+        tag = '<!--#var %s-->' % body
+    else:
+        tag = '%%(%s)%s' % (body, sp.get('cfmt', 's'))
+    pre, post = r.choice([('', ''), ('[', ']'), ('a ', ' b'), ('', 'S'), ('9', '0x'), ('', ''), ('%', '%')])
+    return pre, tag, post
+
+
+def compile_template(syntax, src):
+    from DocumentTemplate import HTML, String
+    return (String if syntax == 'epfs' else HTML)(src)
+
+
+def render_with(t, sp, vd):
+    ns = {sp['decoy']: 'DECOY'}
+    if vd != UNDEF:
+        ns[sp['name']] = mk(vd)
+    try:
+        out = t(**ns)
+    except Exception as e:  # noqa
+        return ('err', type(e).__name__)
+    return ('out', out)
+
+
+def pipe_case(res, fails, sp, syntax, pre, tag, post, values, tag2=None):
+    """one compiled template, rendered with each value in turn and with the first one again; every rendering must
+    equal the reference; tag2 = the same options in another written order (own template)"""
+    src = pre + tag + post
+    case = {'kind': 'pipeline', 'syntax': syntax, 'src': src, 'spec': sp, 'values': values}
+    try:
+        t = compile_template(syntax, src)
+        t2 = compile_template(syntax, pre + tag2 + post) if tag2 else None
+    except Exception as e:  # noqa
+        fails.append({'case': case, 'what': 'generated tag does not compile: %s: %s' % (type(e).__name__, str(e)[:100])})
+        return
+    history = list(values) + ([values[0]] if len(values) > 1 else [])
+    res.count('pipe_history_len=%d' % len(history))
+    for step, vd in enumerate(history):
+        want = ref_outcome(sp, vd)
+        if want is None:
+            res.count('pipe_outside_reference')
+            # still a rendering of the history: it must not disturb the later ones
+            render_with(t, sp, vd)
+            continue
+        if want[0] == 'out':
+            want = ('out', pre + want[1] + post)
+        got = render_with(t, sp, vd)
+        res.evaluations += 1
+        res.count('pipe_expected=' + want[0])
+        if got != want:
+            fails.append({'case': dict(case, step=step, value=vd),
+                          'what': 'rendering %d of the template (value %r): %r, the documented pipeline gives %r'
+                                  % (step + 1, vd, got, want)})
+            return
+        if t2 is not None and step == 0:
+            got2 = render_with(t2, sp, vd)
+            res.evaluations += 1
+            if got2 != want:
+                fails.append({'case': dict(case, src=pre + tag2 + post, step=step, value=vd),
+                              'what': 'other written order: %r, the documented pipeline gives %r' % (got2, want)})
+                return
+    res.nt(('pipe', src, json.dumps(values)))
+
+
+GRID_VALUES = [['int', 255], ['int', 48879], ['int', -3054], ['int', 0], ['int', 65], ['bool', True],
+               ['float', '12345.678'], ['float', '1e-10'], ['float', '1234567.0'], ['float', '-0.25'], ['float', 'nan'],
+               ['float', 'inf'], ['dec', '255'], ['dec', '2.50'], ['str', 'text'], ['str', 'Hello World'], ['str', 'a'],
+               ['none'], ['obj', 'An_Object', True]]
+
+
+def pipe_oracle(res, r, tier):
+    """the reference pipeline against the real tag"""
+    fails = []
+    base = {'written': [], 'name': 'x', 'decoy': 'X', 'by_expr': False}
+    # (a) grid: every conversion type in both spellings x width/precision x value types, in the %(x)code syntax
+    #     alone, behind a custom format, in front of modifiers + truncation; the same %-format through fmt= in the
+    #     HTML syntaxes
+    for letter in CONVERSIONS + BAD_CONVERSIONS:
+        for wp in ('', '08', '.2', '10.3'):
+            code = wp + letter
+            for vd in GRID_VALUES:
+                res.count('pipe_grid')
+                pipe_case(res, fails, dict(base, cfmt=code), 'epfs', '', '%%(x)%s' % code, '', [vd])
+                if letter in BAD_CONVERSIONS and wp:
+                    continue
+                pipe_case(res, fails, dict(base, fmt='%' + code), 'dtml', '', '<dtml-var x fmt="%%%s">' % code, '', [vd])
+            sp = dict(base, cfmt=code, written=['lower'], size='3', etc='~')
+            pipe_case(res, fails, sp, 'epfs', '[', '%%(x lower size=3 etc="~")%s' % code, ']',
+                      [['int', 48879], ['float', '12345.678'], ['str', 'Hello World']])
+            sp = dict(base, cfmt=code, fmt='AsInt')
+            pipe_case(res, fails, sp, 'epfs', '', '%%(x fmt=AsInt)%s' % code, '', [['obj', 'o', True]])
+            sp = dict(base, cfmt=code, fmt='AsFloat', written=['upper'])
+            pipe_case(res, fails, sp, 'epfs', '', '%%(x upper fmt=AsFloat)%s' % code, '', [['obj', 'o', True]])
+            sp = dict(base, cfmt=code, missing='n/a', null='Nil')
+            pipe_case(res, fails, sp, 'epfs', '', '%%(x missing="n/a" null="Nil")%s' % code, '',
+                      [UNDEF, ['int', 255], ['none'], ['str', '']])
+    # (b) random specs x histories of values
+    n = 4500 if tier == 'quick' else 80000
+    for _ in range(n):
+        syntax = r.choice(['epfs', 'epfs', 'dtml', 'ssi'])
+        sp = gen_pspec(r, syntax)
+        values = [gen_pvalue(r) for _ in range(r.choice([1, 1, 2, 3]))]
+        if r.random() < 0.45:
+            # sizes 0..len+2 of the text that reaches the truncation stage
+            try:
+                full = ref_pipeline(sp, values[0])[1]
+            except Exception:  # noqa
+                full = None
+            top = len(full) + 2 if full is not None else 12
+            sp['size'] = str(r.choice([r.randint(0, top), r.randint(0, top), r.choice([0, 1, 2, 3, 5, 8, 20, 100])]))
+            if r.random() < 0.6:
+                sp['etc'] = r.choice(ETCS)
+        elif r.random() < 0.1:
+            sp['etc'] = r.choice(ETCS)
+        pre, tag, post = pipe_source(sp, syntax, r)
+        tag2 = None
+        if r.random() < 0.4:
+            tag2 = pipe_source(sp, syntax, r)[1]
+        res.count('pipe_syntax=' + syntax)
+        if 'cfmt' in sp:
+            res.count('pipe_cfmt=' + sp['cfmt'][-1])
+        for vd in values:
+            res.count('pipe_value=' + vd[0])
+        pipe_case(res, fails, sp, syntax, pre, tag, post, values, tag2)
+    return fails
+
+
 def run(res, tier, have_driver):
     r = common.rng('C15')
     res.rule = ('random specs (modifier subsets in random written order, 13 special + method + %-formats, sizes '
                 '0..len+2 and non-integers, etc strings, null, missing, C-format d) x values (str incl. non-ASCII, '
                 'int, None, objects with methods, undefined, tainted); each spec also re-rendered with its options '
                 'permuted; plus documentation oracles (truncation, case methods, grouping, url round trip, sql_quote, '
-                'null table); non-trivial = distinct (spec, value) that reaches the modifier stage with at least '
-                'one option')
+                'null table); reference pipeline written in Python from the documentation (missing, null, fmt= as '
+                'method / special format / %-format, C-style format (\'%\' + code) % (value,), modifiers in the fixed '
+                'order, size/etc) compared with the real tag on: a grid of every conversion type of the %(name)code '
+                'syntax in both spellings (diouxXeEfFgGcrsa + letters that are no conversion) x width/precision x '
+                'int / bool / float incl. nan, inf / Decimal / str / None / object, alone, behind fmt=method, in front '
+                'of modifiers + truncation, with missing/null, and the same codes through fmt="%code" in the HTML '
+                'syntax; random specs in the three syntaxes (modifier subsets, %-formats with upper-case conversions '
+                'and flags, methods whose names differ in case only, special formats, null / missing / etc texts '
+                'with upper case and blanks, quoted or bare values, assorted white space, name vs expr, variable '
+                'names that differ in case only with a decoy bound to the other spelling, sizes 0..len+2) x '
+                'histories of 1-3 values (int, bool, float, Decimal, Fraction, complex, str, None, containers, '
+                'objects, undefined) rendered one after the other by ONE compiled template and the first value '
+                'again, plus the same options in another written order; counters pipe_*; non-trivial = distinct '
+                '(spec, value) that reaches the modifier stage with at least one option, distinct (source, history) '
+                'of the reference pipeline')
     n = 9000 if tier == 'quick' else 150000
     cases = []
     for _ in range(n):
@@ -310,25 +780,36 @@ def run(res, tier, have_driver):
         res.dist['outside_ext_domain'] = skipped_domain
     for f in doc_oracles(res, r, tier):
         res.oracle_fail.append(f)
+    for f in pipe_oracle(res, common.rng('C15-pipe'), tier):
+        res.oracle_fail.append(f)
     res.partial.append('unquote_inverts_quote_partial: holds at tag level only for values without %XX (doubled '
                        'url_unquote entry: known finding C15-double-unquote); thousands grouping is proved as '
                        '"only inserts commas" + tested against a reference grouping, not proved digit by digit')
     res.assumptions += ['Unicode case mapping, urllib quote/unquote, float formatting are external: parameters of '
                         'the model (driver instance: ASCII case mapping, UTF-8 percent codec); bytes and floats are '
-                        'checked by the oracle only']
+                        'checked by the oracle only',
+                        'reference pipeline: the fixed modifier order is the documented table of the pinned commit; '
+                        'outside its domain (counted as pipe_outside_reference): %-format fmt= of a tuple / mapping, '
+                        'money formats of non-numbers, text formats of non-texts, thousands_commas on texts that are '
+                        'not [sign]digits[.rest], url_unquote results that still contain % or + (known finding), '
+                        'missing= with expr=, bytes, tainted values (C04)']
 
 
 def search_more(res, tier):
     r = common.rng('C15-more')
     r2 = common.Result('C15')
-    return doc_oracles(r2, r, 'quick')[:5]
+    return (doc_oracles(r2, r, 'quick') + pipe_oracle(r2, common.rng('C15-pipe-more'), 'quick'))[:5]
 
 
 def replay(path):
     with open(path) as f:
         d = json.load(f)
     c = d['first']['case']
-    if 'spec' in c and 'value' in c:
+    if c.get('kind') == 'pipeline':
+        t = compile_template(c['syntax'], c['src'])
+        for vd in c['values'] + c['values'][:1]:
+            print(repr(c['src']), vd, 'impl', render_with(t, c['spec'], vd), 'documented', ref_outcome(c['spec'], vd))
+    elif 'spec' in c and 'value' in c:
         print(varpipe.run_impl(c['spec'], c['value'], c.get('syntax', 'dtml')))
     else:
         print(render_simple(c['src'], x=c.get('x')))
